@@ -1979,7 +1979,7 @@ pub fn run(ctx: &mut Ctx) -> &'static str {
                 // the two constructions of the real code must agree (the speed file reader alone rejects
                 // a negative speed, the in-process engine is a struct literal)
                 let valid_name = matches!(&cfg.name, NameQuery::Name(k) if cfg.library.iter().any(|(id, _)| id == k));
-                if valid_name && cfg.malformed.is_none() && !sp.speeds.iter().any(|x| *x < 0.0) && strip_direct(&twin_out) != out.splitn(2, " | ").nth(1).unwrap_or("") {
+                if valid_name && cfg.malformed.is_none() && !sp.speeds.iter().any(|x| *x < 0.0) && strip_direct(&twin_out) != (if out.starts_with("built ") { out.splitn(2, " | ").nth(1).unwrap_or("") } else { out.as_str() }) {
                     ctx.fail(idx, "builder/in-process-twin", format!("the model built from configuration gives `{}` where the same vehicle constructed in-process gives `{}`", out.chars().take(300).collect::<String>(), strip_direct(&twin_out).chars().take(300).collect::<String>()));
                 }
             }
